@@ -55,6 +55,9 @@ pub struct TypeOps {
     /// Returns whether the input was accepted.
     pub follow: fn(&[u8], &[u8], &[u8]) -> bool,
     pub follow_tagged: Option<fn(&[u8], &[u8], &[u8]) -> bool>,
+    /// decode two inputs and compare the values with each other (both ways): `==` terminates, is
+    /// symmetric, and holds when the two render identically (NaN aside).  Ok(true) if both decoded.
+    pub compare: fn(&[u8], &[u8]) -> Result<bool, String>,
 }
 
 /// Follow-up operations a decoded value supports beyond clone/==/Debug/encode/drop.
@@ -241,6 +244,21 @@ macro_rules! ops {
                 Err(_) => false,
             },
             follow_tagged: None,
+            compare: |x, y| match (<$t>::from_slice(x), <$t>::from_slice(y)) {
+                (Ok(a), Ok(b)) => {
+                    let (ab, ba) = (a == b, b == a);
+                    if ab != ba {
+                        return Err(format!("== is not symmetric on {:?} and {:?}", a, b));
+                    }
+                    let (da, db) = (format!("{:?}", a), format!("{:?}", b));
+                    if da == db && !ab && !da.contains("NaN") {
+                        return Err(format!("two values that render identically compare unequal: {}", da));
+                    }
+                    let _ = a != b;
+                    Ok(true)
+                }
+                _ => Ok(false),
+            },
         }
     };
     ($t:ty, $name:expr, $shape:expr, tagged) => {{
